@@ -45,6 +45,7 @@ def run(chk):
     )
     chk.rule("R1", "Summarize: visible columns = grouping columns (minus overwritten) + aggregates, grouping emptied, in all three siblings")
     chk.rule("R2", "filter after summarize -> HAVING, otherwise WHERE; each Query field feeds exactly its own clause")
+    chk.rule("R10", "Polars aggregates interpreted over terms: sum / min / any turn a partition without non-null input into null *per partition* (the count() == 0 guard lies inside the expression .over() is applied to); count / count_star carry no such guard")
     chk.rule("R9", "a computed grouping key is typed Const only when it is constant: CaseExpr.dtype / ColFn.dtype interpreted for every combination of child kinds (the SQL back ends leave Const keys out of GROUP BY)")
     chk.rule("R3", "every declared context keyword is consumed: read by both dispatchers or removed by ColFn.__init__ on every path")
     chk.rule("R4", "Polars: null-for-empty wrapper excludes exactly the counting aggregates; grouped agg vs single-row select")
@@ -146,6 +147,22 @@ def run(chk):
             chk.ob("R2", sql, cq, f"compile_query with only query.{hot} set -> clauses {sorted(got)}", got == want,
                    f"with only `{hot}` set compile_query emits the clauses {sorted(got)}, expected {sorted(want)}")  # fmt: skip
     chk.floor("R2", "compile_query valuations", n2, 8)
+
+    # ---- R10 Polars aggregates: the null-for-empty guard is evaluated per partition (polsim)
+    from .. import polsim
+    from ..interp import PyRaise as _PR, SymbolicBranch as _SB
+    from ..rules.c17 import m_types_env as _mte
+
+    polm = repo.mod("backend.polars")
+    try:
+        res_p = polsim.aggregate_scenarios(polsim.PolWorld(repo, _mte(m)))
+        for desc, ok_, detail in res_p:
+            chk.ob("R10", polm, polm.func("compile_col_expr"), f"polars aggregate interpreted: {desc}", ok_, detail)
+        chk.floor("R10", "Polars aggregate scenarios", len(res_p), 10)
+    except (AnalysisError, _SB) as e:
+        chk.undecided.append(f"R10: Polars compile_col_expr could not be interpreted ({str(e)[:140]})")
+    except _PR as p_:
+        chk.ob("R10", polm, polm.func("compile_col_expr"), "polars compile_col_expr on aggregate stubs", False, f"compile_col_expr raises {p_.name}: {p_.msg}")
 
     from .. import colexprsim
 
